@@ -179,9 +179,9 @@ Theorem model_elements tt structs protos msgs m :
 Proof.
   unfold tt_model. destruct (fold_left tps_step tt (Some [])) as [tps|]; [|discriminate]. intros E Ht. inversion E. subst m. clear E.
   cbn [sm_tps] in Ht.
-  unfold elements_of_model, elements_of. cbn [sm_states sm_events sm_actions sm_guards sm_actionsigs sm_tps sm_first if_structs if_protos if_msgs].
+  unfold elements_of_model, elements_of. cbn [sm_states sm_events sm_actions sm_guards sm_actionsigs sm_tps sm_first sm_rows if_structs if_protos if_msgs].
   rewrite Ht, tt_states_first_appearance, tt_actions_first_appearance, tt_guards_first_appearance, tt_sigs_first_appearance.
   rewrite add_missing_adds, tt_events_first_appearance.
   replace (match tt with [] => "NO TT PRESENT!" | r :: _ => r_state r end) with (TTable.getfirststate (table_of tt)) by (destruct tt; reflexivity).
-  reflexivity.
+  unfold table_of. rewrite map_map. reflexivity.
 Qed.
